@@ -253,28 +253,80 @@ def _label_table(ctx, f):
             and isinstance(n.targets[0], ast.Subscript)]
     ctx.require(len(sets) == 1, f"{f.qual}: label store not found")
     rows, bad = [], []
-    for v in (-2, -1, 0, 1, 2):
-        env = {L: v}
 
-        class E(_Arith):
-            def ev(self, e):
-                if isinstance(e, ast.Call) and ast.unparse(e.func) in (
-                        "any", "all"):
-                    return bool(self.ev(e.args[0]))
-                return super().ev(e)
+    class Vec(tuple):
+        pass
 
-        ar = E(env)
+    class E(_Arith):
+        """label vectors instead of single labels: element-wise
+        comparisons, any / all, .min() / .max() / .abs()"""
+
+        def ev(self, e):
+            if isinstance(e, ast.Call):
+                fn = ast.unparse(e.func)
+                if fn in ("any", "all", "np.any", "np.all") and e.args:
+                    v = self.ev(e.args[0])
+                    v = v if isinstance(v, Vec) else Vec((v,))
+                    return (any if fn.endswith("any") else all)(
+                        bool(x) for x in v)
+                if fn in ("abs", "np.abs") and e.args:
+                    v = self.ev(e.args[0])
+                    return Vec(abs(x) for x in v) if isinstance(v, Vec) \
+                        else abs(v)
+                if isinstance(e.func, ast.Attribute) and not e.args and \
+                        e.func.attr in ("min", "max", "any", "all", "abs"):
+                    v = self.ev(e.func.value)
+                    if isinstance(v, Vec):
+                        if e.func.attr == "abs":
+                            return Vec(abs(x) for x in v)
+                        return {"min": min, "max": max, "any": any,
+                                "all": all}[e.func.attr](v)
+            if isinstance(e, ast.Compare) and len(e.ops) == 1:
+                a, b = self.ev(e.left), self.ev(e.comparators[0])
+                if isinstance(a, Vec) or isinstance(b, Vec):
+                    n = len(a) if isinstance(a, Vec) else len(b)
+                    av = a if isinstance(a, Vec) else Vec((a,) * n)
+                    bv = b if isinstance(b, Vec) else Vec((b,) * n)
+                    op = {ast.Lt: lambda x, y: x < y,
+                          ast.LtE: lambda x, y: x <= y,
+                          ast.Gt: lambda x, y: x > y,
+                          ast.GtE: lambda x, y: x >= y,
+                          ast.Eq: lambda x, y: x == y,
+                          ast.NotEq: lambda x, y: x != y}[type(e.ops[0])]
+                    return Vec(op(x, y) for x, y in zip(av, bv))
+            if isinstance(e, ast.BinOp) and isinstance(
+                    e.op, (ast.BitOr, ast.BitAnd)):
+                a, b = self.ev(e.left), self.ev(e.right)
+                if isinstance(a, Vec) and isinstance(b, Vec):
+                    f2 = (lambda x, y: x or y) if isinstance(
+                        e.op, ast.BitOr) else (lambda x, y: x and y)
+                    return Vec(f2(x, y) for x, y in zip(a, b))
+            if isinstance(e, ast.UnaryOp) and isinstance(e.op, ast.Invert):
+                v = self.ev(e.operand)
+                if isinstance(v, Vec):
+                    return Vec(not x for x in v)
+            return super().ev(e)
+
+    vals = (-2, -1, 0, 1, 2)
+    vectors = [(a_,) for a_ in vals] + [(a_, b_) for a_ in vals
+                                        for b_ in vals]
+    for vec in vectors:
+        ar = E({L: Vec(vec)})
         raised = all(bool(ar.ev(t)) == pol for t, pol in gs)
-        out = None if raised else bool(ar.ev(sets[0].value))
-        want_raise = abs(v) > 1
-        want = None if want_raise else (v == 1)
-        rows.append({"label": v, "raises": raised, "target": out})
+        out = None
+        if not raised:
+            o = ar.ev(sets[0].value)
+            out = [bool(x) for x in o] if isinstance(o, Vec) else None
+        want_raise = any(abs(v) > 1 for v in vec)
+        want = None if want_raise else [v == 1 for v in vec]
+        rows.append({"labels": list(vec), "raises": raised, "target": out})
         if raised != want_raise or out != want:
             bad.append(rows[-1])
-    ctx.extra["label_table"] = rows
+    ctx.extra["label_table"] = rows[:5]
     ctx.check(not bad, "C10b-label-table", f,
-              "1 -> target, 0 and -1 -> decoy, anything else is rejected "
-              "(5 valuations)", f"deviates: {bad}", node=sets[0])
+              "1 -> target, 0 and -1 -> decoy, a column containing anything "
+              f"else is rejected ({len(vectors)} label vectors)",
+              f"deviates: {bad[:4]}", node=sets[0])
     ctx.check(ast.unparse(sets[0].targets[0]) == f"{p_data}[{p_col}]",
               "C10b-label-stored-in-place", f,
               "the converted labels replace the label column",
